@@ -21,6 +21,12 @@ def plans(quick):
                  checks=[dict(steps=4, slots=1, lists=[['e1', 'e2']])],
                  gen=dict(steps=4, slots=1, lists=[['e1', 'e2']], fail=False, restart=False), cover_limit=150, walks=40,
                  sim=dict(num=80, depth=10, slots=1, lists=[['e1', 'e2']])),
+            # v3: the pipeline mounted below has the same values as the root - lo::a and a are ONE computation in one
+            # chain; v1 + v2 share the inner pipeline's results across chains
+            dict(family='levels', opts=opts,
+                 checks=[dict(steps=4, slots=1, lists=[['v1', 'v2'], ['v3']])],
+                 gen=dict(steps=4, slots=1, lists=[['v1', 'v2'], ['v3'], ['v2', 'v3']], fail=False, restart=False),
+                 cover_limit=150, walks=40, sim=dict(num=80, depth=10, slots=1)),
             dict(family='names', name_mode=True, opts=opts, gen=dict(steps=4, slots=1, rcs=['top1', 'top2'], lists=[['top1', 'top2'], ['top1']], fail=False, restart=False), cover_limit=120, walks=40, sim=dict(num=80, depth=10, slots=1, rcs=['top1', 'top2', 'model'], lists=[['top1', 'top2'], ['top1'], ['model']])),
         ]
     return [
@@ -33,7 +39,8 @@ def plans(quick):
              sim=dict(num=2000, depth=16, slots=2))
         for f, ls in (('chain', [['r1', 'r2'], ['r1', 'r3'], ['r1', 'r4']]),
                       ('mounts', [['u1', 'm12'], ['c11'], ['c21']]),
-                      ('diamond', [['d1', 'd2'], ['d2', 'd3']]))
+                      ('diamond', [['d1', 'd2'], ['d2', 'd3']]),
+                      ('levels', [['v1', 'v2'], ['v3'], ['v2', 'v3']]))
     ]
 
 
